@@ -7,7 +7,7 @@ EXTENDS Ast, TLC, Json
 
 CONSTANT MaxDepth
 
-FailKinds == {"assert", "nil", "index", "zerodiv", "overflow", "remove", "key_strindex"}
+FailKinds == {"assert", "nil", "index", "index_empty", "zerodiv", "overflow", "remove", "remove_empty", "key_strindex"}
 Positions == {"plain", "inif", "inwhile"}
 LevelKinds == {"fn", "method", "callback"}
 
@@ -26,6 +26,8 @@ FailCore ==
     CASE kind = "assert" -> <<Assert(Bin("==", V("d"), I(12345)))>>
       [] kind = "nil" -> <<LetT("o", "int?", Nil), Print(Get(V("o")))>>
       [] kind = "index" -> <<LetT("xs", "[int...]", List(<<I(1)>>)), Let("k", V("d")), Print(Idx(V("xs"), V("k")))>>
+      [] kind = "index_empty" -> <<LetT("xs", "[int...]", List(<<>>)), Let("k", Bin("-", V("d"), V("d"))), Print(Idx(V("xs"), V("k")))>>
+      [] kind = "remove_empty" -> <<LetT("xs", "[int...]", List(<<>>)), Let("k", Bin("-", V("d"), V("d"))), Print(MCall(V("xs"), "remove", <<V("k")>>))>>
       [] kind = "zerodiv" -> <<Let("z", Bin("-", V("d"), V("d"))), Print(Bin("/", I(7), V("z")))>>
       [] kind = "overflow" -> <<Let("big", I(2147483647)), Print(Bin("+", V("big"), V("d")))>>
       [] kind = "remove" -> <<LetT("xs", "[int...]", List(<<I(1)>>)), Let("k", V("d")), Print(MCall(V("xs"), "remove", <<V("k")>>))>>
